@@ -361,7 +361,7 @@ def check_using_total(fmt):
 
 def build_field(sign_begin, n_int, comma, n_dec, sign_end):
     """Text of one numeric field."""
-    f = '+' if sign_begin else ''
+    f = {0: '', 1: '+', 2: '-'}[sign_begin]
     ip = '#' * n_int
     if comma and n_int >= 2:
         ip = ip[:-1] + ',' + '#'        # a comma anywhere left of the point
@@ -381,7 +381,10 @@ def ref_number(field, value):
     from decimal import Decimal, ROUND_HALF_EVEN
     width = len(field)
     sign_begin = field[0] == '+'
-    sign_end = field[-1] if field[-1] in '+-' else ''
+    # a leading '-' is a sign position in qbee: '-' for a negative value,
+    # nothing for the others (the position is padding)
+    sign_end = field[-1] if (field[-1] in '+-' and field[0] not in '+-') \
+        else ''
     core = field.strip('+-')
     comma = ',' in core
     n_dec = len(core) - core.index('.') - 1 if '.' in core else -1
